@@ -1750,8 +1750,9 @@ pub fn from_reader_with_options<'a, R: std::io::Read + 'a, T: DeserializeOwned>(
         }
         match shared_ring.get_recent() {
             Ok(snapshot) => {
-                let text = String::from_utf8_lossy(&snapshot.bytes);
-                e.with_snippet_offset(&text, snapshot.start_line, crop_radius)
+                let (start_line, bytes) = snapshot.whole_lines();
+                let text = String::from_utf8_lossy(bytes);
+                e.with_snippet_offset(&text, start_line, crop_radius)
             }
             Err(_) => e, // If we can't get the snapshot, return the error as-is
         }
